@@ -311,6 +311,7 @@ def check(ctx):
         ctx.require(any(f.qualname == must for f in reach), f"C12: {must} not reachable from get_estimates in the call graph "
                                                             f"(resolution lost)")
     seeds = Seeds(ctx, reach)
+    _REPO[:] = [repo]
 
     # ---- R1 ------------------------------------------------------------------------------
     nsrc = 0
@@ -348,6 +349,13 @@ def check(ctx):
                 ok, why = seeds.derived(f, util.kwarg(c, "random_state"))
                 ctx.ob("C12.R1.seed", key, ok, where, f"DataFrame.sample(random_state=<seed setting>) ({why})" if ok
                        else f"DataFrame.sample is not seeded from the seed setting: {why}")
+            elif name == "rvs" and isinstance(c.func, ast.Attribute):
+                # scipy.stats distributions (frozen or not): .rvs() draws from numpy's GLOBAL state unless random_state= is given
+                nsrc += 1
+                ok, why = seeds.derived(f, util.kwarg(c, "random_state"))
+                ctx.ob("C12.R1.seed", key, ok, where, f"distribution.rvs(random_state=<seed-derived>) ({why})" if ok
+                       else f"{ast.unparse(c.func)[:80]}() draws from numpy's global random state unless random_state= is derived from the "
+                            f"seed setting: {why}")
             elif name in ("shuffle", "choice", "uniform", "normal", "multivariate_normal", "integers", "permutation",
                           "standard_normal", "random", "permuted", "binomial", "poisson", "exponential", "beta", "gamma",
                           "dirichlet", "multinomial", "bytes", "rand", "randn", "randint") and isinstance(c.func, ast.Attribute) \
@@ -466,7 +474,22 @@ def check(ctx):
     ctx.count("C12.R4.functions_summarised", len(mu._sum))
 
 
+_REPO = []
+
+
 def _looks_like_rng(f, recv):
+    """receiver of a draw method is a random generator: decided by what is assigned to it (a generator constructor), with the
+    name as a fallback for parameters"""
+    if isinstance(recv, ast.Attribute) and isinstance(recv.value, ast.Name):
+        ws = util.attr_writes(_REPO[0], recv.attr) if _REPO else []
+        if any(isinstance(v, ast.Call) and (util.dotted(v.func) or "").split(".")[-1] in ("default_rng", "RandomState", "Generator", "Random")
+               for _, _, v, _ in ws if v is not None):
+            return True
+    if isinstance(recv, ast.Name):
+        for a in util.own_nodes(f, ast.Assign):
+            if any(isinstance(t, ast.Name) and t.id == recv.id for t in a.targets) and isinstance(a.value, ast.Call) \
+                    and (util.dotted(a.value.func) or "").split(".")[-1] in ("default_rng", "RandomState", "Generator", "Random"):
+                return True
     s = ast.unparse(recv)
     return "rng" in s or "random_state" in s or "generator" in s.lower()
 
